@@ -60,6 +60,7 @@ type Case struct {
 	Cfg    string  `json:"cfg"`
 	Fam    string  `json:"fam"`
 	Tag    string  `json:"tag,omitempty"`  // opcode / precompile a template is about
+	Cell   string  `json:"cell,omitempty"` // pushtail sweep: (length mod 8, last opcode)
 	Site   string  `json:"site,omitempty"` // code site a template aims at (part of the signature when the child dies)
 	Kind   string  `json:"kind"`           // call | create | pre
 	To     string  `json:"to,omitempty"`   // call target (default: the contract under test)
@@ -126,12 +127,27 @@ type tracker struct {
 
 	steps, nframes, memGrow, below30 int64
 	staticSteps                      int64
+	overBudget                       bool
 	maxDepthSeen, maxStackSeen       int
 	opHist                           [256]int64
 	faults                           map[string]int64
 	inconsistent                     int64
 	p026                             bool
 	quiet                            bool
+	cancel                           func() // aborts the running EVM (vm.EVM.Cancel)
+	cancelled                        bool
+}
+
+// stepBudget: no case of the workload can take this many interpreter steps on a
+// tree that charges for its steps (random programs get <= 2e6 gas, the 1e16-gas
+// templates are bounded by the call depth); beyond it the run is cut short.
+const stepBudget = 50000000
+
+func (t *tracker) abort() {
+	if !t.cancelled && t.cancel != nil {
+		t.cancelled = true
+		t.cancel()
+	}
 }
 
 func (t *tracker) reset(supplied uint64) {
@@ -141,6 +157,7 @@ func (t *tracker) reset(supplied uint64) {
 	t.faults = map[string]int64{}
 	t.steps, t.nframes, t.memGrow, t.below30, t.inconsistent, t.staticSteps = 0, 0, 0, 0, 0, 0
 	t.maxDepthSeen, t.maxStackSeen = 0, 0
+	t.cancel, t.cancelled, t.overBudget = nil, false, false
 	t.opHist = [256]int64{}
 }
 
@@ -176,6 +193,7 @@ func (t *tracker) check(f *frame, gas uint64, memLen int, where string) {
 			sig = "C11:step:gas-increased-after-call"
 		}
 		t.flag(sig, fmt.Sprintf("depth %d %s: gas %d after op 0x%02x at pc %d, %d before it", f.depth, where, gas, f.lastOp, f.lastPC, f.lastGas))
+		t.abort() // a frame that gains gas need not terminate: the violation is recorded, stop the run
 		return
 	}
 	if memLen > f.lastMem {
@@ -193,6 +211,10 @@ func (t *tracker) check(f *frame, gas uint64, memLen int, where string) {
 
 func (t *tracker) onStep(depth int, pc uint64, op byte, gas uint64, stackLen int, memLen int, readOnly bool) {
 	t.steps++
+	if t.steps == stepBudget {
+		t.overBudget = true
+		t.abort()
+	}
 	t.opHist[op]++
 	if depth > t.maxDepthSeen {
 		t.maxDepthSeen = depth
@@ -537,6 +559,7 @@ func (h *harness) exec(c *Case) (res execResult) {
 	ctx := h.ctx
 	ctx.GasLimit = c.Gas
 	evm := vm.NewEVMWithNFT(ctx, adb, adb)
+	h.t.cancel = evm.Cancel
 	caller := vm.AccountRef(originAddr)
 	val := caseValue(c)
 	func() {
@@ -657,8 +680,15 @@ func (h *harness) run(c *Case) {
 		r.Count("failed_top_calls_root_compared", 1)
 	}
 	// expectations of the fault templates
-	if c.Expect != "" {
+	if c.Expect != "" && !t.cancelled {
 		h.expect(c, &res, kind)
+	}
+	if c.Fam == "pushtail" {
+		r.Count("pushtail:"+c.Cell, 1)
+	}
+	if t.overBudget {
+		r.Count("step_budget_cut", 1)
+		r.Inconclusive("case %d/%s/%s/%s executed %d interpreter steps with %d gas and was cut short", c.Pos, c.Cfg, c.Fam, c.Tag, stepBudget, c.Gas)
 	}
 	// statistics
 	r.Count("steps", t.steps)
@@ -729,6 +759,18 @@ func (h *harness) expect(c *Case, res *execResult, kind string) {
 			bad(fmt.Sprintf("no inner frame ended with %s (frame endings: %v)", want, h.t.faults))
 		} else if len(res.ret) != 32 || !allZero(res.ret) {
 			bad(fmt.Sprintf("the failing sub-call reported success to its caller (flag %x)", res.ret))
+		}
+	case strings.HasPrefix(c.Expect, "word:"):
+		// the program returns one word: the success flag of a sub-call / the address pushed by CREATE*
+		want := c.Expect[5:]
+		r.Count("expect_checked:word-"+want, 1)
+		switch {
+		case res.err != nil:
+			bad(fmt.Sprintf("outer frame failed: %v", res.err))
+		case len(res.ret) != 32:
+			bad(fmt.Sprintf("outer frame returned %d bytes", len(res.ret)))
+		case want == "zero" && !allZero(res.ret), want == "nonzero" && allZero(res.ret):
+			bad(fmt.Sprintf("sub-call / creation result word is %x (frame endings %v)", res.ret, h.t.faults))
 		}
 	case strings.HasPrefix(c.Expect, "bigcreate:"):
 		h.expectBigCreate(c, res, kind)
@@ -1255,7 +1297,7 @@ func main() {
 			"single-opcode probes over an operand grid {0,1,31,32,33,0xffff,2^32-1,2^32,0x1fffffffe0,0x1fffffffe1,2^63-1,2^63,2^64-1,2^64,2^255,2^256-1} for every opcode with memory operands, " +
 			"charge-wrap seekers (memory sizes whose magnified gas charge wraps uint64), truncated PUSHn, self/mutual recursion through CALL/CALLCODE/DELEGATECALL/STATICCALL/AUTHCALL/CREATE/CREATE2, CREATE loops, EXP/KECCAK256/LOGn sweeps, " +
 			"the node's opcodes (PRINTF, STAKE, UNSTAKE, GETSTAKE, UNSTAKEALL, STAKENUM, AUTH incl. valid signatures, AUTHCALL, TLOAD/TSTORE, BLOBHASH, BASEFEE, BLOBBASEFEE, MCOPY, PUSH0) with arbitrary stack and memory, stack-limit fills for every stack-growing opcode, " +
-			"creations (top-level Create, CREATE, CREATE2) whose init code has effects and RETURNs MaxCodeSize-1 / MaxCodeSize / MaxCodeSize+1 / 2*MaxCodeSize / 1 MiB bytes with 2e10 gas, fault templates with the expected error kind, every opcode byte 1-3 non-static frames (CALL/DELEGATECALL/CALLCODE, mixed) below a STATICCALL judged against its behaviour directly below the STATICCALL,  every precompile 1..18 directly and through CALL/CALLCODE/DELEGATECALL/STATICCALL/top-level Call with empty, 1-byte, valid (src/vm/testdata/precompiles), bit-flipped, truncated, extended, huge-length-field and random inputs; " +
+			"a structured sweep of code lengths 1..80 x last opcode PUSH1..PUSH32 with none / all-but-one / all of its data present x a prefix doing a taken JUMP, a taken JUMPI or a jump to a 0x5b inside push data, run as deployed code (Call, DELEGATECALL, STATICCALL) and as init code (Create, CREATE, CREATE2), counted per (length mod 8, PUSHn), creations (top-level Create, CREATE, CREATE2) whose init code has effects and RETURNs MaxCodeSize-1 / MaxCodeSize / MaxCodeSize+1 / 2*MaxCodeSize / 1 MiB bytes with 2e10 gas, fault templates with the expected error kind, every opcode byte 1-3 non-static frames (CALL/DELEGATECALL/CALLCODE, mixed) below a STATICCALL judged against its behaviour directly below the STATICCALL,  every precompile 1..18 directly and through CALL/CALLCODE/DELEGATECALL/STATICCALL/top-level Call with empty, 1-byte, valid (src/vm/testdata/precompiles), bit-flipped, truncated, extended, huge-length-field and random inputs; " +
 			"each in the fork configurations {none, P014, P014+P022, P014+P022+P026} (one per child process). Non-trivial: the interpreter executed >= 1 step or a precompile was entered; distinct by hash of (config, kind, target, code, input, gas, value, helpers), recorded for the first 250k non-trivial cases of every child process.",
 		Assumptions: []string{
 			"the lower bound demanded for memory growth is the Yellow Paper cost C(w)=3w+w^2/512 of the growth (Rangers charges this, x30 or x900 under Proposal026): anything below it is a violation in every configuration",
@@ -1266,7 +1308,7 @@ func main() {
 		MustObserve: []string{"steps", "frames", "memory_growth_steps", "nontrivial_runs", "precompile_direct", "precompile_vectors_ok", "depth_limit_reached", "stack_1024_reached",
 			"fault:oog", "fault:invalid-opcode", "fault:stack-underflow", "fault:stack-overflow", "fault:bad-jump", "fault:write-protection", "fault:revert",
 			"failed_top_calls_root_compared", "max_table_defined_none", "max_table_defined_p014", "max_table_defined_p014p022", "max_table_defined_all",
-			"cases:rawcode", "cases:rawinit", "cases:weighted", "cases:memext", "cases:custom", "cases:recursion", "cases:precompile", "cases:precompile-call", "cases:stackfill", "cases:fault", "cases:staticchain", "cases:bigcreate", "bigcreate_within_limit", "bigcreate_over_limit", "expect_checked:chainstatic", "static_frame_steps", "cases:subcall", "cases:gaswrap", "cases:createloop"},
+			"cases:rawcode", "cases:rawinit", "cases:weighted", "cases:memext", "cases:custom", "cases:recursion", "cases:precompile", "cases:precompile-call", "cases:stackfill", "cases:fault", "cases:staticchain", "cases:pushtail", "pushtail:m0:PUSH32", "pushtail:m7:PUSH1", "expect_checked:word-nonzero", "expect_checked:word-zero", "cases:bigcreate", "bigcreate_within_limit", "bigcreate_over_limit", "expect_checked:chainstatic", "static_frame_steps", "cases:subcall", "cases:gaswrap", "cases:createloop"},
 	})
 }
 
